@@ -14,6 +14,7 @@ import LiquerModel.Ref
 import LiquerProofs.Inst.Vocab
 import LiquerProofs.Lemmas.EvalExact
 import LiquerProofs.Lemmas.EvalExample
+import LiquerProofs.Lemmas.EvalCanon
 
 namespace Liquer.C01
 
@@ -140,11 +141,90 @@ example :
     (refQ env0 9 qOneAdd (s "one/add-2") .none none).2 = [s "root.one(N;)", s "root.add(I1;I2)"] := by
   decide +kernel
 
+/-! ### the canonical-text hypothesis, discharged for well-formed queries (C02 + position-irrelevance) -/
+
 /-- the hypothesis C02 is to discharge for the queries of interest: every parsed query means what its
-canonical text means, fuel by fuel (`CanonOK.of_same` turns it into `CanonOK`) -/
+canonical text means, fuel by fuel (`CanonOK.of_same` turns it into `CanonOK`).
+STATEMENT-ONLY, and FALSE as stated: for the two known grammar findings (`C02.finding_rtq_capture`,
+`C02.finding_res_header_empty_param`) the parsed AST is not `wfTop` and its canonical text parses to a different
+query.  The proved part is `canon_wf` / `canon_same_wf` below: every `wfTop` AST (the image of the parser but for
+those two findings), every fuel. -/
 def canon_all_statement (env : Env) : Prop := ∀ t q, parse env.dec t = some q → CanonSame env q
+
+/-- positions are irrelevant on successful runs: two queries equal up to source positions (`erase` =
+`clean_position`) have the same reference result — outcome and call log — at every fuel, for every as-typed
+text, extra parameters and input, as soon as one of the two results is successful -/
+theorem ref_position_irrelevant (env : Env) (n : Nat) (q q' : Query) (raw : Str) (extra : Extra)
+    (input : Option Val) (h : q'.erase = q.erase)
+    (hg : (refQ env n q' raw extra input).1.good ∨ (refQ env n q raw extra input).1.good) :
+    refQ env n q' raw extra input = refQ env n q raw extra input :=
+  Canon.refQ_erase_eq env n raw extra input h hg
+
+/-- every well-formed query means what its canonical text means, fuel by fuel: the same-fuel form … -/
+theorem canon_same_wf (env : Env) (hd : DecOK env.dec) (q : Query) (hwf : wfTop Gen.escapeTable q = true) :
+    CanonSame env q :=
+  Canon.canonSame_of_wf env hd q hwf
+
+/-- … and the form the evaluator theorems take as hypothesis -/
+theorem canon_wf (env : Env) (hd : DecOK env.dec) (q : Query) (hwf : wfTop Gen.escapeTable q = true) :
+    CanonOK env q :=
+  CanonOK.of_same (Canon.canonSame_of_wf env hd q hwf)
+
+/-- `canon_all_statement` restricted to the texts whose AST is well-formed -/
+theorem canon_all_wf (env : Env) (hd : DecOK env.dec) (t : Str) (q : Query) (_ : parse env.dec t = some q)
+    (hwf : wfTop Gen.escapeTable q = true) : CanonSame env q :=
+  canon_same_wf env hd q hwf
+
+/-- R-eval without the canonical-text hypothesis: for a closed class of well-formed queries, in a sound world the
+outcome is (up to `status`) the reference outcome, the world stays sound, the calls are a subsequence of the
+reference calls -/
+theorem eval_is_ref_wf {env : Env} (hd : DecOK env.dec) {C : Query → Prop} {T : Str → Prop} (hC : Closed env C T)
+    (hwf : ∀ q, C q → wfTop Gen.escapeTable q = true) (n : Nat) (w : World) (q : Query) (raw : Str) (extra : Extra)
+    (input : Option Val) (uc : Bool) (hS : Sound env w) (hCq : C q) (huc : uc = true → input = none) :
+    Sound env (evalQ env n w q raw extra input uc).1 ∧
+    ((evalQ env n w q raw extra input uc).2 ≠ .unmodelled →
+      ∃ m c', (evalQ env n w q raw extra input uc).1.calls = w.calls ++ c' ∧
+        c'.Sublist (refQ env m q raw extra input).2 ∧
+        Outcome.sim (evalQ env n w q raw extra input uc).2 (refQ env m q raw extra input).1) :=
+  eval_is_ref hC (fun q hq => canon_wf env hd q (hwf q hq)) n w q raw extra input uc hS hCq huc
+
+/-- … and the observables of the returned state are those of every modelled run of the reference interpretation -/
+theorem eval_obs_is_ref_wf {env : Env} (hd : DecOK env.dec) {C : Query → Prop} {T : Str → Prop}
+    (hC : Closed env C T) (hwf : ∀ q, C q → wfTop Gen.escapeTable q = true) (n m : Nat) (w : World) (q : Query)
+    (raw : Str) (extra : Extra) (input : Option Val) (uc : Bool) (hS : Sound env w) (hCq : C q)
+    (huc : uc = true → input = none) (he : (evalQ env n w q raw extra input uc).2 ≠ .unmodelled)
+    (hr : (refQ env m q raw extra input).1 ≠ .unmodelled) :
+    (evalQ env n w q raw extra input uc).2.obs = (refQ env m q raw extra input).1.obs :=
+  eval_obs_is_ref hC (fun q hq => canon_wf env hd q (hwf q hq)) n m w q raw extra input uc hS hCq huc he hr
+
+-- non-vacuity: the decoder of the example environment is a decoder, the family of Lemmas/EvalExample.lean
+-- (closed, contains a link argument) consists of well-formed queries; a successful run to which
+-- `ref_position_irrelevant` applies: `one/add-~X~/one~E` with all positions forgotten
+open Ex in
+example : DecOK env0.dec ∧ Closed env0 C0 T0 ∧ (∀ q, C0 q → wfTop Gen.escapeTable q = true) ∧ C0 qLink ∧
+    wfTop Gen.escapeTable qLink = true :=
+  ⟨decUtf8_ok, closed0, by intro q hq; rcases hq with rfl | rfl | rfl | rfl <;> decide +kernel, Or.inl rfl,
+    by decide +kernel⟩
+open Ex in
+example : qLink.erase.erase = qLink.erase ∧ qLink.erase ≠ qLink ∧
+    (refQ env0 9 qLink (s "one/add-~X~/one~E") .none none).1.good := by
+  refine ⟨rfl, fun h => ?_, ?_⟩
+  · have := congrArg (fun q : Query => q.segments.map (fun sg => match sg with
+      | .transform _ as _ => as.map Action.pos
+      | _ => [])) h
+    revert this
+    decide
+  have h : (refQ env0 9 qLink (s "one/add-~X~/one~E") .none none).1.obs.map (·.value) = some (some (.int 2)) := by
+    decide +kernel
+  cases ho : (refQ env0 9 qLink (s "one/add-~X~/one~E") .none none).1 with
+  | st e =>
+    rw [ho] at h
+    cases he : e.isError
+    · exact he
+    · simp [Outcome.obs, he] at h
+  | _ => rw [ho] at h; simp [Outcome.obs] at h
 
 end Liquer.C01
 
--- OBLIGATIONS: Liquer.C01.inst_registry Liquer.C01.eval_is_ref_nocache Liquer.C01.evalText_is_ref_nocache Liquer.C01.nocache_world Liquer.C01.eval_is_ref Liquer.C01.evalText_is_ref Liquer.C01.empty_sound Liquer.C01.eval_is_ref_empty Liquer.C01.eval_is_ref_all Liquer.C01.eval_obs_is_ref Liquer.C01.ref_fuel_irrelevant Liquer.C01.ref_spelling_irrelevant
+-- OBLIGATIONS: Liquer.C01.inst_registry Liquer.C01.eval_is_ref_nocache Liquer.C01.evalText_is_ref_nocache Liquer.C01.nocache_world Liquer.C01.eval_is_ref Liquer.C01.evalText_is_ref Liquer.C01.empty_sound Liquer.C01.eval_is_ref_empty Liquer.C01.eval_is_ref_all Liquer.C01.eval_obs_is_ref Liquer.C01.ref_fuel_irrelevant Liquer.C01.ref_spelling_irrelevant Liquer.C01.ref_position_irrelevant Liquer.C01.canon_same_wf Liquer.C01.canon_wf Liquer.C01.canon_all_wf Liquer.C01.eval_is_ref_wf Liquer.C01.eval_obs_is_ref_wf
 -- STATEMENT-ONLY: Liquer.C01.canon_all_statement
